@@ -200,6 +200,19 @@ CHECKS = {
              'open stream of served resources while a higher-priority peer is known, and a list first afterwards; at every checkpoint '
              'exactly the served (resource, namespace) pairs have an open stream, never two at once. Bounded exploration.',
         design_ref='5/C19'),
+    'C20': dict(
+        technique='property-based testing: Hypothesis-generated closed-loop runs (startup/cleanup handler scripts with retry limits and '
+                  'durations, slow change handlers, daemons with staged termination, timers, peering on/off, objects before and during the '
+                  'run, events queued behind a slow handler) with one terminating trigger at a generated instant (stop flag, cancellation, '
+                  'unknown ERROR in the CRD stream, unknown ERROR in the served resource\'s stream, none); oracle = ordering/outcome '
+                  'invariants over the global order of handler calls, API requests, stream intervals and the run call\'s outcome',
+        text='No request before the last startup handler succeeded; a failed startup => no request, no ready flag, the run call raises; '
+             'ready flag only after startup; after the trigger the run call returns within the bound from the configured grace periods with '
+             'the right outcome (failure re-raised / CancelledError / nothing); when the first cleanup handler starts every daemon has '
+             'been asked to stop, no stream of the process is open, the peering record is withdrawn, and no handler starts afterwards; '
+             'with the stop flag all cleanup handlers complete; nothing of the process happens after the run call returned. Two listed '
+             'known findings (a failed watcher does not stop the operator; cleanup starts while invocations still run). Bounded exploration.',
+        design_ref='5/C20'),
 }
 
 REASON_TODO = 'no check is registered for it yet in this revision (planned; see DESIGN.md section 9)'
